@@ -30,6 +30,7 @@ import (
 	"strings"
 	"sync"
 	"sync/atomic"
+	"syscall"
 	"time"
 
 	h "verifh"
@@ -106,6 +107,17 @@ func C18IsChild(kind string) bool { return os.Getenv("VERIF_C18_CHILD") == kind 
 
 // C18ChildInput reads the case (stdin) and the repetition count.
 func C18ChildInput(v interface{}) (reps int) {
+	// A child must not outlive its parent (killed by the driver's time limit,
+	// or gone after reporting): without this a child spinning in a broken
+	// library call would burn a core for ever.  The kernel delivers SIGKILL
+	// when the parent goes away (PR_SET_PDEATHSIG); no goroutine or timer of
+	// ours is involved, so the Go runtime's deadlock detector ("all goroutines
+	// are asleep"), which the parent relies on, is not masked.
+	parent := os.Getppid()
+	syscall.RawSyscall(syscall.SYS_PRCTL, syscall.PR_SET_PDEATHSIG, uintptr(syscall.SIGKILL), 0)
+	if os.Getppid() != parent {
+		os.Exit(3) // the parent went away before the request took effect
+	}
 	b, err := io.ReadAll(os.Stdin)
 	if err != nil {
 		panic(err)
